@@ -2818,6 +2818,247 @@ fn core_word_name(xs: &mut State) -> Xresult {
     xs.push_data(Cell::from(s))
 }
 
+// ---------------------------------------------------------------------------
+// Read-only observation hooks for the external verification harness.
+// Compiled only with `--features verif_hooks`; adds no behaviour.
+#[cfg(feature = "verif_hooks")]
+pub mod verif {
+    use super::*;
+
+    #[derive(Debug, Clone)]
+    pub struct VerifFrame {
+        pub fn_addr: usize,
+        pub return_to: usize,
+        pub locals: Vec<Cell>,
+    }
+
+    #[derive(Debug, Clone)]
+    pub struct VerifLoop {
+        pub start: isize,
+        pub end: isize,
+        pub items: Cell,
+    }
+
+    #[derive(Debug, Clone)]
+    pub struct VerifCtx {
+        pub ds_len: usize,
+        pub cs_len: usize,
+        pub rs_len: usize,
+        pub fs_len: usize,
+        pub ls_len: usize,
+        pub ss_ptr: usize,
+        pub di_len: usize,
+        pub ip: usize,
+        pub mode: &'static str,
+    }
+
+    #[derive(Debug, Clone)]
+    pub struct VerifDump {
+        pub ip: usize,
+        pub data_stack: Vec<Cell>,
+        pub ctx: VerifCtx,
+        pub nested: Vec<VerifCtx>,
+        pub return_stack: Vec<VerifFrame>,
+        pub loops: Vec<VerifLoop>,
+        pub special: Vec<usize>,
+        pub heap: Vec<Cell>,
+        pub flow: Vec<&'static str>,
+        pub inputs: Vec<usize>,
+        pub dict_len: usize,
+        pub code_len: usize,
+        pub debug_map_len: usize,
+        pub sources_len: usize,
+        pub insn_meter: usize,
+        pub insn_limit: Option<usize>,
+        pub stack_limit: Option<usize>,
+        pub heap_limit: Option<usize>,
+        pub recording: bool,
+        pub rlog: Vec<&'static str>,
+    }
+
+    fn ctx_dump(c: &Context) -> VerifCtx {
+        VerifCtx {
+            ds_len: c.ds_len,
+            cs_len: c.cs_len,
+            rs_len: c.rs_len,
+            fs_len: c.fs_len,
+            ls_len: c.ls_len,
+            ss_ptr: c.ss_ptr,
+            di_len: c.di_len,
+            ip: c.ip,
+            mode: match c.mode {
+                ContextMode::Compile => "compile",
+                ContextMode::Eval => "eval",
+                ContextMode::MetaEval => "meta",
+            },
+        }
+    }
+
+    fn flow_kind(f: &Flow) -> &'static str {
+        match f {
+            Flow::If(_) => "if",
+            Flow::Else(_) => "else",
+            Flow::Begin(_) => "begin",
+            Flow::While(_) => "while",
+            Flow::Break(_) => "break",
+            Flow::Case => "case",
+            Flow::CaseOf(_) => "of",
+            Flow::CaseEndOf(_) => "endof",
+            Flow::Vec => "vec",
+            Flow::Map => "map",
+            Flow::Tags => "tags",
+            Flow::Fun(_) => "fun",
+            Flow::Do { .. } => "do",
+            Flow::Enum(_) => "enum",
+        }
+    }
+
+    fn rstep_kind(r: &ReverseStep) -> &'static str {
+        match r {
+            ReverseStep::SetIp(_) => "SetIp",
+            ReverseStep::PushData(_) => "PushData",
+            ReverseStep::PopData => "PopData",
+            ReverseStep::SwapData => "SwapData",
+            ReverseStep::RotData => "RotData",
+            ReverseStep::OverData => "OverData",
+            ReverseStep::PopReturn => "PopReturn",
+            ReverseStep::PushReturn(_) => "PushReturn",
+            ReverseStep::PopLoop => "PopLoop",
+            ReverseStep::PushLoop(_) => "PushLoop",
+            ReverseStep::LoopNextBack(_) => "LoopNextBack",
+            ReverseStep::PopSpecial => "PopSpecial",
+            ReverseStep::PushSpecial(_) => "PushSpecial",
+            ReverseStep::DropLocal(_) => "DropLocal",
+            ReverseStep::SwapRef(_, _) => "SwapRef",
+            #[allow(unreachable_patterns)]
+            _ => "Other",
+        }
+    }
+
+    impl State {
+        pub fn verif_dump(&self) -> VerifDump {
+            VerifDump {
+                ip: self.ctx.ip,
+                data_stack: self.data_stack.clone(),
+                ctx: ctx_dump(&self.ctx),
+                nested: self.nested.iter().map(ctx_dump).collect(),
+                return_stack: self
+                    .return_stack
+                    .iter()
+                    .map(|f| VerifFrame {
+                        fn_addr: f.fn_addr,
+                        return_to: f.return_to,
+                        locals: f.locals.iter().cloned().collect(),
+                    })
+                    .collect(),
+                loops: self
+                    .loops
+                    .iter()
+                    .map(|l| VerifLoop {
+                        start: l.range.start,
+                        end: l.range.end,
+                        items: l.items.clone(),
+                    })
+                    .collect(),
+                special: self
+                    .special
+                    .iter()
+                    .map(|s| match s {
+                        Special::VecStackStart(n) => *n,
+                    })
+                    .collect(),
+                heap: self.heap.clone(),
+                flow: self.flow_stack.iter().map(flow_kind).collect(),
+                inputs: self.input.iter().map(|l| l.verif_unread()).collect(),
+                dict_len: self.dict.len(),
+                code_len: self.code.len(),
+                debug_map_len: self.debug_map.len(),
+                sources_len: self.sources.len(),
+                insn_meter: self.insn_meter,
+                insn_limit: self.insn_limit,
+                stack_limit: self.stack_limit,
+                heap_limit: self.heap_limit,
+                recording: self.reverse_log.is_some(),
+                rlog: self
+                    .reverse_log
+                    .as_ref()
+                    .map(|l| l.iter().map(rstep_kind).collect())
+                    .unwrap_or_default(),
+            }
+        }
+
+        /// Normalised bytecode listing: absolute jump targets, native words by name.
+        pub fn verif_code(&self) -> Vec<String> {
+            let native_name = |x: &XfnPtr| -> String {
+                self.dict
+                    .iter()
+                    .rev()
+                    .find(|e| match &e.entry {
+                        Entry::Function { xf: Xfn::Native(f), .. } => f == x,
+                        _ => false,
+                    })
+                    .map(|e| e.name.to_string())
+                    .unwrap_or_else(|| String::from("?"))
+            };
+            self.code
+                .iter()
+                .enumerate()
+                .map(|(ip, op)| match op {
+                    Opcode::Nop => "nop".to_string(),
+                    Opcode::Call(a) => format!("call {}", a),
+                    Opcode::Resolve(n) => format!("resolve {}", n),
+                    Opcode::NativeCall(x) => format!("native {}", native_name(x)),
+                    Opcode::Ret => "ret".to_string(),
+                    Opcode::JumpIf(r) => format!("jumpif {}", r.calculate(ip)),
+                    Opcode::JumpIfNot(r) => format!("jumpifnot {}", r.calculate(ip)),
+                    Opcode::Jump(r) => format!("jump {}", r.calculate(ip)),
+                    Opcode::Do(r) => format!("do {}", r.calculate(ip)),
+                    Opcode::Break(r) => format!("break {}", r.calculate(ip)),
+                    Opcode::Loop(r) => format!("loop {}", r.calculate(ip)),
+                    Opcode::CaseOf(r) => format!("caseof {}", r.calculate(ip)),
+                    Opcode::Load(a) => format!("load {}", a.index()),
+                    Opcode::LoadNil => "loadnil".to_string(),
+                    Opcode::LoadI64(i) => format!("loadi64 {}", i),
+                    Opcode::LoadF64(x) => format!("loadf64 {}", x),
+                    Opcode::LoadStr(s) => format!("loadstr {:?}", s.as_str()),
+                    Opcode::LoadCell(c) => format!("loadcell {:?}", c),
+                    Opcode::Store(a) => format!("store {}", a.index()),
+                    Opcode::InitLocal(i) => format!("initlocal {}", i),
+                    Opcode::LoadLocal(i) => format!("loadlocal {}", i),
+                })
+                .collect()
+        }
+
+        /// Byte range of the source token recorded for each bytecode cell.
+        pub fn verif_debug_map(&self) -> Vec<(usize, usize)> {
+            self.debug_map
+                .iter()
+                .map(|t| {
+                    let r = t.range();
+                    (r.start, r.end)
+                })
+                .collect()
+        }
+
+        /// Dictionary entries as (name, kind).
+        pub fn verif_dict(&self) -> Vec<(String, &'static str)> {
+            self.dict
+                .iter()
+                .map(|e| {
+                    let kind = match &e.entry {
+                        Entry::Constant(_) => "const",
+                        Entry::Variable(_) => "var",
+                        Entry::Function { immediate: true, .. } => "immediate",
+                        Entry::Function { xf: Xfn::Native(_), .. } => "native",
+                        Entry::Function { xf: Xfn::Interp(_), .. } => "interp",
+                    };
+                    (e.name.to_string(), kind)
+                })
+                .collect()
+        }
+    }
+}
+
 #[cfg(test)]
 mod tests {
     use super::*;
